@@ -480,6 +480,7 @@ def build(p):
     p.native(fn, D, 'masked')
   for alg_ in ('fed_avg.apply', 'fed_prox.apply', 'mime.apply', 'mime_lite.apply', 'agnostic_fed_avg.apply', 'apfl.apply', 'norm.'):
     p.native(alg_, D, 'empty_round')
+  p.native('agnostic_fed_avg', D, 'agnostic_round')
   v_scalar_loss(p)
   v_average_loss(p)
   v_mime_grads(p)
